@@ -215,7 +215,8 @@ inductive BItem
   | comp2 (hdr : FrameV2) (codec : Int) (recs : List RecV2)
   /-- uncompressed v0/v1 message -/
   | msg (m : Msg)
-  /-- v0/v1 wrapper message: null key, value = the inner message set compressed with `codec` -/
+  /-- v0/v1 wrapper message: value = the inner message set compressed with `codec`; the key is `m`'s — producers write
+  null, the format allows any, `readMessageV1` passes over it with `discardBytes` (C05-D31) -/
   | wrap (m : Msg) (codec : Int) (inner : List Msg)
 
 def encMsgs (crc : Bytes → Nat) : List Msg → Bytes
@@ -226,7 +227,7 @@ def comp2Frame (enc : Int → Bytes → Bytes) (hdr : FrameV2) (codec : Int) (re
   { hdr with attributes := codec, count := (recs.length : Int), payload := enc codec (encRecs recs) }
 
 def wrapMsg (enc : Int → Bytes → Bytes) (crc : Bytes → Nat) (m : Msg) (codec : Int) (inner : List Msg) : Msg :=
-  { m with attributes := codec, key := none, value := some (enc codec (encMsgs crc inner)) }
+  { m with attributes := codec, value := some (enc codec (encMsgs crc inner)) }
 
 def BItem.bytes (c : TokCfg) (enc : Int → Bytes → Bytes) : BItem → Bytes
   | .plain2 b => encFrame c.crcs.castagnoli b.frame
